@@ -31,6 +31,8 @@ mod build;
 mod cmdline;
 mod token_check;
 #[cfg(sccache_verif)]
+mod verif_paths;
+#[cfg(sccache_verif)]
 mod verif_sched;
 
 use cmdline::{AuthSubcommand, Command};
@@ -46,6 +48,10 @@ fn main() {
     #[cfg(sccache_verif)]
     if env::args().nth(1).as_deref() == Some("__verif_sched") {
         return verif_sched::main();
+    }
+    #[cfg(sccache_verif)]
+    if env::args().nth(1).as_deref() == Some("__verif_paths") {
+        std::process::exit(verif_paths::main(&env::args().skip(2).collect::<Vec<_>>()));
     }
 
     init_logging();
